@@ -721,6 +721,18 @@ def direct_worker_call(nodes):
     return any(rec(n) for n in nodes if not isinstance(n, (ast.For, ast.While, ast.FunctionDef, ast.AsyncFunctionDef)))
 
 
+def nested_worker_loop(nodes):
+    """the loop body contains exactly ONE inner loop / list comprehension that calls the worker itself (rows of a matrix)"""
+    found = []
+    for n in nodes:
+        for x in ast.walk(n):
+            if isinstance(x, ast.For) and direct_worker_call(x.body):
+                found.append(x)
+            elif isinstance(x, ast.ListComp) and direct_worker_call([ast.Expr(x.elt)]):
+                found.append(x)
+    return len(found) == 1
+
+
 def own_nodes(fnode, types):
     """nodes of `types` in fnode, not inside nested function definitions, in source order"""
     out = []
@@ -1032,6 +1044,7 @@ class C19Executor(Executor):
         inv = spec.inv if spec is not None else None
         accs = sorted(r for r in (set(self.mutated_refs(nodes, st)) | set(accs_extra)) if self.is_strlist(st, r))
         extra = {"accs": accs, "svars": self.string_accumulators(st, nodes), "calls_worker": direct_worker_call(nodes)}
+        extra["nested"] = (not extra["calls_worker"]) and nested_worker_loop(nodes)
         src = it.tag if isinstance(it, VSeq) and isinstance(it.tag, dict) else None
         for r in accs:                                        # which sequence the items of this list come from
             if ("comp_src", r) not in st.ghost:
@@ -1294,6 +1307,9 @@ def content_conj(lc):
     return now == cat2(ent, CH(e, lc.i))
 
 
+NESTED_SPEC = {"mr": ("e", " & ")}          # documented form of a matrix: the cells (m:e) of a row (m:mr) joined by ' & '
+
+
 def items_conj(lc):
     """the same for a loop / comprehension over `e.findall(T)` whose ONE accumulator is a list of str (operands of m:d): history
         RS(e, 0) = []      RS(e, i+1) = RS(e, i) ++ [r_i]      r_i = result of the ONE worker call of iteration i, made on item i
@@ -1308,8 +1324,14 @@ def items_conj(lc):
         return None
     n_ent = len([x for x in lc.entry.ghost.get("rcalls", ()) if x[0] == PE])
     new = [x for x in lc.st.ghost.get("rcalls", ()) if x[0] == PE][n_ent:]
+    nested = None
     if not lc.extra.get("calls_worker"):
-        return None                                       # a loop whose body has no worker call of its own: no content claim
+        # rows of a matrix: no worker call of its own, ONE inner loop that has -- item i is rendered as the documented join of
+        # the results of that inner loop over the item's cells (NESTED_SPEC: outer path -> (cell tag, cell separator))
+        if lc.extra.get("nested") and any(path == Q(k) for k in NESTED_SPEC):
+            nested = [v for k, v in NESTED_SPEC.items() if path == Q(k)][0]
+        else:
+            return None                                   # a loop that renders nothing itself: no content claim
     RS = lc.extra.get("rseq")
     if RS is None:
         RS = lc.extra["rseq"] = z3.Function(fresh_name("operand_results"), El, I, SS)
@@ -1317,7 +1339,16 @@ def items_conj(lc):
     if not any(x[2].eq(RS) for x in known):
         lc.st.ghost["item_loops"] = known + ((e, path, RS),)
     lc.st.assume(RS(e, z3.IntVal(0)) == z3.Empty(SS))
-    if z3.is_add(lc.i):
+    if z3.is_add(lc.i) and nested is not None:
+        i0 = z3.simplify(lc.i - 1)
+        item = it.elem(i0).t
+        before = lc.entry.ghost.get("item_loops", ())
+        inner = [x for x in lc.st.ghost.get("item_loops", ()) if not x[2].eq(RS) and not any(x[2].eq(y[2]) for y in before)]
+        if len(new) != 0 or len(inner) != 1 or not inner[0][0].eq(item) or inner[0][1] != Q(nested[0]):
+            return z3.BoolVal(False)
+        row = SJOIN(sval(nested[1]), inner[0][2](item, NFINDALL(item, sval(Q(nested[0])))))
+        lc.st.assume(RS(e, lc.i) == z3.Concat(RS(e, i0), z3.Unit(row)))
+    elif z3.is_add(lc.i):
         i0 = z3.simplify(lc.i - 1)
         if len(new) != 1:
             return z3.BoolVal(False)
@@ -1649,6 +1680,19 @@ def contracts(reg):
         left, right = own_val(e, "dPr", "begChr", "("), own_val(e, "dPr", "endChr", ")")
         return z3.Implies(lname(e) == sval("d"), c.result.t == cat(left, operands_in_order(c, e, "e", ", "), right))
 
+    def pe_m_cells(c):
+        """round 7: a matrix is its rows in document order joined by ' \\\\ ', a row its cells in document order joined by ' & ',
+        a cell the result of the worker on it -- every cell rendered exactly once"""
+        ev = A0(c)
+        if not verifying(c) or not isinstance(ev, VExt) or not isinstance(c.result, VStr):
+            return z3.BoolVal(True)
+        committed = path_tag(c)
+        if committed is not None and committed != "m":
+            return z3.BoolVal(True)
+        e = ev.t
+        guard = z3.And(lname(e) == sval("m"), z3.Not(FINDNONE(e, sval(Q("mr")))))
+        return z3.Implies(guard, c.result.t == cat("\\begin{matrix}", operands_in_order(c, e, "mr", " \\\\ "), "\\end{matrix}"))
+
     def pe_default(c):
         """round 7: every element that is neither a structure nor a skipped property (m:r, m:e, m:num, m:oMath, unknown
         wrappers ...) is rendered as the results of the worker on its children, each once, in document order"""
@@ -1681,7 +1725,8 @@ def contracts(reg):
             ("None-is-empty", pe_none),
             ("property-tags-skipped", pe_skip),
         ] + [(f"template.{t}", template(t)) for t in STRUCT_TAGS] + [("template.default-children-in-order", pe_default),
-                                                                      ("template.d-operands-in-order", pe_d_operands)],
+                                                                      ("template.d-operands-in-order", pe_d_operands),
+                                                                      ("template.m-cells-in-order", pe_m_cells)],
         loops={"*": LoopSpec(inv=conv_loop_inv)},
         note="recursive; verified against its own contract at every recursive call",
     ))
